@@ -54,6 +54,8 @@ impl<'r, TC: ModelCfg> HistVisitor<TC> for V2<'r> {
             let n = published.len().min(4);
             for mask in 1u32..(1 << n) {
                 let subset: Vec<Vec<u8>> = (0..n).filter(|i| mask & (1 << i) != 0).map(|i| published[i].clone()).collect();
+                // (in label order for odd masks, reversed for even ones: the answer must follow the request order)
+                let subset: Vec<Vec<u8>> = if mask % 2 == 0 { subset.into_iter().rev().collect() } else { subset };
                 let akd_labels: Vec<AkdLabel> = subset.iter().map(|l| AkdLabel(l.clone())).collect();
                 self.rep.eval(1);
                 match dir.batch_lookup(&akd_labels).await {
